@@ -100,10 +100,15 @@ def run(ctx, idx):
     res = {d.cls.name: (d, r) for d, r in R.results(idx).values() if d.module.name.endswith("eems.basic")}
     n_aug = 0
     ctx.rule("C07.e", "An arithmetic command only reads what it is given: it neither writes in place through an input array (a later command on the same field would compute with changed values or missing cells) nor edits a list argument (the same weights passed again would be shorter).")
+    ctx.rule("C07.f", "An arithmetic command computes its definition however it is written in the file: its execute accepts **kwargs (every command can be given the optional Metadata argument, and Command.run hands every cleaned argument to execute) - C02.c's reading.")
     for name in ARITH:
         if name not in res:
             raise AnalysisError("arithmetic command %s vanished" % name)
         d, r = res[name]
+        own_ = d.cls.methods.get("execute")
+        if own_ is not None:
+            ctx.ob("C07.f", "%s.execute::accepts-metadata" % d.key, d.module.rel, own_.node.lineno, own_.node.args.kwarg is not None,
+                   "**kwargs accepted" if own_.node.args.kwarg is not None else "execute does not accept **kwargs: the same command with `Metadata = [...]` attached fails with TypeError (UnexpectedError) instead of computing its result")
         R.leaves_inputs_alone(ctx, "C07.e", d, r, "the field is no longer what its producer computed, so the next arithmetic command on it does not return its cell-by-cell definition")
         R.leaves_arguments_alone(ctx, "C07.e", d, r)
         n_aug += dtype_rule(ctx, "C07.a", d, r)
